@@ -760,7 +760,7 @@ def check_C18(chk):
                 "option lists of 0..1 (0..2 thorough) over 7 text classes (true, false, i32 incl. +5/007/extremes, "
                 "overflowing / non-decimal, keyword, value containing '=', no '=') x extra header, crossed with printer "
                 "scripts {ready, stopped, blocking reason alone / in a set, IPP error, HTTP error} x Print-Job reply {ok, "
-                "IPP error, HTTP error}; enumerated by TLC; quick runs a seeded stride of ~1400 sessions, thorough all; one "
+                "IPP error, HTTP error}; enumerated by TLC; quick runs a seeded stride of ~1500 sessions, thorough ~9000; one "
                 "evaluation = one run of the real ipputil binary; judged by Trace_Util")
     chk.assumptions = ["ipputil is built from /repo (cargo build -p ipp-util, target dir under /verif)", "loopback server of the harness",
                        "responses produced by the library's encoder (judged by C03)"]
@@ -778,7 +778,7 @@ def check_C18(chk):
     chk.add_mc(r, "MC_UtilCmd (status, cancel-job, get-job, purge-jobs, get-all-jobs)")
     out = os.path.join(wd, "run")
     harness("vh", ["util", "--out", out, "--seed", chk.seed, "--cases", cases, "--cmdcases", cmdcases, "--bin", binp,
-                   "--tier", chk.tier, "--limit", 1400 if q else 10**9], timeout=7200)
+                   "--tier", chk.tier, "--limit", 1400 if q else 9000], timeout=7200)
     run_sample(chk, out)
     validate_with_retries(chk, "trace_util", "Trace_Util.tla", os.path.join(out, "trace.ndjson"),
                           os.path.join(out, "trace.side.ndjson"), describe=util_describe, drop_runs=True,
